@@ -30,6 +30,7 @@ type Val struct {
 	Ref, Off, Len, Cap *Term
 	El                 []*Val
 	Fn                 *closureInfo // for VFunc values known statically
+	Unique             bool         // slice backed by an array nothing else references
 }
 
 type closureInfo struct {
@@ -544,4 +545,45 @@ func coerceSort(t *Term, to *Sort, signed bool) *Term {
 		return BV2Int(t)
 	}
 	panic(fmt.Sprintf("coerceSort %s -> %s", t.S, to))
+}
+
+// newNext: a fresh allocation counter >= cur (fact returned for unguarded assertion).
+func newNext(cur *Term) (*Term, *Term) {
+	n := Fresh("next", IntS)
+	base, k := linView(cur)
+	if base != nil && isNextVar(base) && k.Sign() >= 0 {
+		nextParent[n] = base
+	} else {
+		nextParent[n] = nil
+	}
+	return n, Ge(n, cur)
+}
+
+// registerBelow records the (unguarded) facts ref < next for the reference variables of v.
+func registerBelow(v *Val, next *Term) {
+	base, k := linView(next)
+	if base == nil || !isNextVar(base) || k.Sign() > 0 {
+		return
+	}
+	reg := func(r *Term) {
+		if r != nil && r.Op == "var" {
+			if _, ok := refBelow[r]; !ok {
+				refBelow[r] = base
+			}
+		}
+	}
+	var walk func(v *Val)
+	walk = func(v *Val) {
+		switch v.K {
+		case VPtr, VSlice, VString, VIface:
+			reg(v.Ref)
+		case VMap:
+			reg(v.S)
+		case VTuple:
+			for _, e := range v.El {
+				walk(e)
+			}
+		}
+	}
+	walk(v)
 }
